@@ -9,7 +9,7 @@ EXTENDS Programs, Runtime, Json, IOUtils
 CONSTANTS MaxParams, DumpCases
 
 ParamLists == UNION { [1..n -> ParamKinds] : n \in 0..MaxParams }
-Progs == { p \in [mode : {"fn", "mod"}, nfn : 1..3, deps : DepsKinds, async : BOOLEAN, params : ParamLists, opt : OptSets, hyg : BOOLEAN] : WellFormed(p) }
+Progs == { p \in [mode : {"fn", "mod"}, nfn : 1..3, deps : DepsKinds, async : BOOLEAN, params : ParamLists, opt : OptSets, hyg : BOOLEAN, hygtr : BOOLEAN] : WellFormed(p) }
 
 Sc(p) == [own |-> [m \in { FnName(i) : i \in 1..p.nfn } |-> m],
           deps |-> [m \in { FnName(i) : i \in 1..p.nfn } |-> IF p.deps = "nodeps" THEN "none" ELSE "recv"]]
